@@ -1269,4 +1269,198 @@ theorem convex_contains_iff_partial (r : Ring K) (p : Pt K) (h3 : r.length = 3) 
     rw [tri_contains_iff a b c p hdet, hedges]
     simp only [List.mem_cons, List.not_mem_nil, or_false, forall_eq_or_imp, forall_eq]
 
+/-! ## 7. the boundary's membership test (distance to the nearest edge ≤ tol) -/
+
+theorem clampUnit_mem (x : K) : 0 ≤ clampUnit x ∧ clampUnit x ≤ 1 := by
+  unfold clampUnit
+  split
+  · exact ⟨le_refl _, zero_le_one⟩
+  · split
+    · exact ⟨zero_le_one, le_refl _⟩
+    · rename_i h1 h2
+      simp only [le_iff, not_le] at h1 h2
+      exact ⟨h1.le, h2.le⟩
+
+theorem clampUnit_of_mem (x : K) (h0 : 0 ≤ x) (h1 : x ≤ 1) : clampUnit x = x := by
+  unfold clampUnit
+  split
+  · rename_i h; simp only [le_iff] at h; exact le_antisymm h0 h
+  · split
+    · rename_i h; simp only [le_iff] at h; exact le_antisymm h h1
+    · rfl
+
+theorem dist2_nonneg (a b : Pt K) : 0 ≤ dist2 a b := by
+  simp only [dist2]; nlinarith [mul_self_nonneg (a.1 - b.1), mul_self_nonneg (a.2 - b.2)]
+
+theorem dist2_zero_iff (a b : Pt K) : dist2 a b ≤ 0 ↔ a = b := by
+  constructor
+  · intro h
+    have h1 := mul_self_nonneg (a.1 - b.1)
+    have h2 := mul_self_nonneg (a.2 - b.2)
+    simp only [dist2] at h
+    have e1 : (a.1 - b.1) * (a.1 - b.1) = 0 := by linarith
+    have e2 : (a.2 - b.2) * (a.2 - b.2) = 0 := by linarith
+    exact Prod.ext (sub_eq_zero.mp (mul_self_eq_zero.mp e1)) (sub_eq_zero.mp (mul_self_eq_zero.mp e2))
+  · rintro rfl; simp [dist2]
+
+theorem between_mul_nonneg (a b x : K) (h1 : min a b ≤ x) (h2 : x ≤ max a b) :
+    0 ≤ (x - a) * (b - a) ∧ 0 ≤ (b - x) * (b - a) := by
+  rcases le_total a b with h | h
+  · rw [min_eq_left h] at h1; rw [max_eq_right h] at h2
+    exact ⟨mul_nonneg (sub_nonneg.mpr h1) (sub_nonneg.mpr h), mul_nonneg (sub_nonneg.mpr h2) (sub_nonneg.mpr h)⟩
+  · rw [min_eq_right h] at h1; rw [max_eq_left h] at h2
+    exact ⟨mul_nonneg_of_nonpos_of_nonpos (sub_nonpos.mpr h2) (sub_nonpos.mpr h),
+      mul_nonneg_of_nonpos_of_nonpos (sub_nonpos.mpr h1) (sub_nonpos.mpr h)⟩
+
+/-- a point of a non-degenerate segment is `a + τ (b − a)` with `τ = ⟨q − a, b − a⟩ / |b − a|² ∈ [0, 1]` -/
+theorem onSeg_param (a b q : Pt K) (hl : 0 < dist2 a b) (h : onSeg a b q = true) :
+    0 ≤ dotSeg a b q / dist2 a b ∧ dotSeg a b q / dist2 a b ≤ 1 ∧
+    q.1 = a.1 + dotSeg a b q / dist2 a b * (b.1 - a.1) ∧ q.2 = a.2 + dotSeg a b q / dist2 a b * (b.2 - a.2) := by
+  obtain ⟨h0, x1, x2, y1, y2⟩ := (onSeg_iff a b q).mp h
+  obtain ⟨nx, mx⟩ := between_mul_nonneg a.1 b.1 q.1 x1 x2
+  obtain ⟨ny, my⟩ := between_mul_nonneg a.2 b.2 q.2 y1 y2
+  have hτ : dotSeg a b q / dist2 a b * dist2 a b = dotSeg a b q := div_mul_cancel₀ _ hl.ne'
+  simp only [orient] at h0
+  refine ⟨div_nonneg (by simp only [dotSeg]; linarith) hl.le, ?_, ?_, ?_⟩
+  · rw [div_le_one hl]; simp only [dotSeg, dist2]; nlinarith
+  · have : (q.1 - a.1 - dotSeg a b q / dist2 a b * (b.1 - a.1)) * dist2 a b = 0 := by
+      have e : (q.1 - a.1 - dotSeg a b q / dist2 a b * (b.1 - a.1)) * dist2 a b =
+          (q.1 - a.1) * dist2 a b - (dotSeg a b q / dist2 a b * dist2 a b) * (b.1 - a.1) := by ring
+      rw [e, hτ]; simp only [dotSeg, dist2]; linear_combination (-(b.2 - a.2)) * h0
+    have := (mul_eq_zero.mp this).resolve_right hl.ne'
+    linarith
+  · have : (q.2 - a.2 - dotSeg a b q / dist2 a b * (b.2 - a.2)) * dist2 a b = 0 := by
+      have e : (q.2 - a.2 - dotSeg a b q / dist2 a b * (b.2 - a.2)) * dist2 a b =
+          (q.2 - a.2) * dist2 a b - (dotSeg a b q / dist2 a b * dist2 a b) * (b.2 - a.2) := by ring
+      rw [e, hτ]; simp only [dotSeg, dist2]; linear_combination (b.1 - a.1) * h0
+    have := (mul_eq_zero.mp this).resolve_right hl.ne'
+    linarith
+
+/-- the nearest point computed by the model lies on the segment -/
+theorem segNearest_onSeg (a b p : Pt K) : onSeg a b (segNearest a b p) = true := by
+  unfold segNearest
+  split
+  · rw [onSeg_iff]; exact ⟨by simp only [orient]; ring, min_le_left _ _, le_max_left _ _, min_le_left _ _, le_max_left _ _⟩
+  · obtain ⟨t0, t1⟩ := clampUnit_mem (dotSeg a b p / dist2 a b)
+    generalize clampUnit (dotSeg a b p / dist2 a b) = t at t0 t1
+    rw [onSeg_iff]
+    refine ⟨by simp only [orient]; ring, ?_, ?_, ?_, ?_⟩
+    · rcases le_total a.1 b.1 with h | h
+      · rw [min_eq_left h]; nlinarith [mul_nonneg t0 (sub_nonneg.mpr h)]
+      · rw [min_eq_right h]; nlinarith [mul_nonneg (sub_nonneg.mpr t1) (sub_nonneg.mpr h)]
+    · rcases le_total a.1 b.1 with h | h
+      · rw [max_eq_right h]; nlinarith [mul_nonneg (sub_nonneg.mpr t1) (sub_nonneg.mpr h)]
+      · rw [max_eq_left h]; nlinarith [mul_nonneg t0 (sub_nonneg.mpr h)]
+    · rcases le_total a.2 b.2 with h | h
+      · rw [min_eq_left h]; nlinarith [mul_nonneg t0 (sub_nonneg.mpr h)]
+      · rw [min_eq_right h]; nlinarith [mul_nonneg (sub_nonneg.mpr t1) (sub_nonneg.mpr h)]
+    · rcases le_total a.2 b.2 with h | h
+      · rw [max_eq_right h]; nlinarith [mul_nonneg (sub_nonneg.mpr t1) (sub_nonneg.mpr h)]
+      · rw [max_eq_left h]; nlinarith [mul_nonneg t0 (sub_nonneg.mpr h)]
+
+/-- a point of the segment has distance zero from it -/
+theorem segDist2_onSeg (a b p : Pt K) (h : onSeg a b p = true) : segDist2 a b p = 0 := by
+  unfold segDist2 segNearest
+  split
+  · rename_i hl
+    simp only [le_iff] at hl
+    have hab := (dist2_zero_iff a b).mp hl
+    subst hab
+    obtain ⟨_, x1, x2, y1, y2⟩ := (onSeg_iff a a p).mp h
+    simp only [min_self, max_self] at x1 x2 y1 y2
+    have e1 : p.1 = a.1 := le_antisymm x2 x1
+    have e2 : p.2 = a.2 := le_antisymm y2 y1
+    simp only [dist2, e1, e2]; ring
+  · rename_i hl
+    simp only [le_iff, not_le] at hl
+    obtain ⟨t0, t1, ex, ey⟩ := onSeg_param a b p hl h
+    rw [clampUnit_of_mem _ t0 t1]
+    generalize dotSeg a b p / dist2 a b = τ at ex ey ⊢
+    simp only [dist2]
+    rw [← ex, ← ey]; ring
+
+theorem polyBdryContains_iff (tol : K) (P : Polygon K) (p : Pt K) : polyBdryContains tol P p = true ↔
+    0 ≤ tol ∧ ∃ e ∈ polyEdges P, segDist2 e.1 e.2 p ≤ tol * tol := by
+  simp only [polyBdryContains, Bool.and_eq_true, le_iff, List.any_eq_true]
+
+/-- **every point that lies exactly on an edge (of the exterior or of a hole) is accepted by the boundary's
+    membership test, whatever the (non-negative) tolerance** -/
+theorem bdry_accepts_edge_points (tol : K) (h0 : 0 ≤ tol) (P : Polygon K) (p : Pt K) (h : onPolyBdry P p = true) :
+    polyBdryContains tol P p = true := by
+  rw [polyBdryContains_iff]
+  simp only [onPolyBdry, List.any_eq_true] at h
+  obtain ⟨e, he, hp⟩ := h
+  exact ⟨h0, e, he, by rw [segDist2_onSeg _ _ _ hp]; exact mul_nonneg h0 h0⟩
+
+/-- **every accepted point is within `tol` of a point that lies exactly on an edge**: far points are rejected -/
+theorem bdry_accepted_is_near (tol : K) (P : Polygon K) (p : Pt K) (h : polyBdryContains tol P p = true) :
+    ∃ q, onPolyBdry P q = true ∧ dist2 p q ≤ tol * tol := by
+  rw [polyBdryContains_iff] at h
+  obtain ⟨_, e, he, hd⟩ := h
+  refine ⟨segNearest e.1 e.2 p, ?_, hd⟩
+  simp only [onPolyBdry, List.any_eq_true]
+  exact ⟨e, he, segNearest_onSeg _ _ _⟩
+
+/-- the model's nearest point is the nearest: no point of the segment is closer to `p` -/
+theorem segDist2_le (a b p q : Pt K) (h : onSeg a b q = true) : segDist2 a b p ≤ dist2 p q := by
+  unfold segDist2 segNearest
+  split
+  · rename_i hl
+    simp only [le_iff] at hl
+    have hab := (dist2_zero_iff a b).mp hl
+    subst hab
+    obtain ⟨_, x1, x2, y1, y2⟩ := (onSeg_iff a a q).mp h
+    simp only [min_self, max_self] at x1 x2 y1 y2
+    have e1 : q.1 = a.1 := le_antisymm x2 x1
+    have e2 : q.2 = a.2 := le_antisymm y2 y1
+    simp only [dist2, e1, e2]; exact le_refl _
+  · rename_i hl
+    simp only [le_iff, not_le] at hl
+    obtain ⟨s0, s1, ex, ey⟩ := onSeg_param a b q hl h
+    generalize dotSeg a b q / dist2 a b = s at s0 s1 ex ey
+    have hτ : dotSeg a b p / dist2 a b * dist2 a b = dotSeg a b p := div_mul_cancel₀ _ hl.ne'
+    -- f(s) − f(t) = |b−a|² (s − t)(s + t − 2 t₀)
+    have key : ∀ t : K, dist2 p q - dist2 p (a.1 + t * (b.1 - a.1), a.2 + t * (b.2 - a.2)) =
+        dist2 a b * ((s - t) * (s + t - 2 * (dotSeg a b p / dist2 a b))) := by
+      intro t
+      have : dist2 a b * ((s - t) * (s + t - 2 * (dotSeg a b p / dist2 a b))) =
+          dist2 a b * ((s - t) * (s + t)) - 2 * (s - t) * (dotSeg a b p / dist2 a b * dist2 a b) := by ring
+      rw [this, hτ]
+      simp only [dist2, dotSeg, ex, ey]; ring
+    unfold clampUnit
+    split
+    · rename_i c0
+      simp only [le_iff] at c0
+      have := key 0
+      have h2 : 0 ≤ (s - 0) * (s + 0 - 2 * (dotSeg a b p / dist2 a b)) := mul_nonneg (by linarith) (by linarith)
+      have := mul_nonneg hl.le h2
+      linarith
+    · split
+      · rename_i c0 c1
+        simp only [le_iff] at c1
+        have := key 1
+        have h2 : 0 ≤ (s - 1) * (s + 1 - 2 * (dotSeg a b p / dist2 a b)) :=
+          mul_nonneg_of_nonpos_of_nonpos (by linarith) (by linarith)
+        have := mul_nonneg hl.le h2
+        linarith
+      · have := key (dotSeg a b p / dist2 a b)
+        have h2 : 0 ≤ (s - dotSeg a b p / dist2 a b) * (s + dotSeg a b p / dist2 a b - 2 * (dotSeg a b p / dist2 a b)) := by
+          have e : (s - dotSeg a b p / dist2 a b) * (s + dotSeg a b p / dist2 a b - 2 * (dotSeg a b p / dist2 a b)) =
+            (s - dotSeg a b p / dist2 a b) * (s - dotSeg a b p / dist2 a b) := by ring
+          rw [e]; exact mul_self_nonneg _
+        have := mul_nonneg hl.le h2
+        linarith
+
+/-- **the boundary test is exactly "within `tol` of the set of edge points"**: accepted ⇔ some point lying exactly on
+    an edge is at (squared) distance ≤ tol² -/
+theorem polyBdryContains_iff_near (tol : K) (h0 : 0 ≤ tol) (P : Polygon K) (p : Pt K) :
+    polyBdryContains tol P p = true ↔ ∃ q, onPolyBdry P q = true ∧ dist2 p q ≤ tol * tol := by
+  constructor
+  · exact bdry_accepted_is_near tol P p
+  · rintro ⟨q, hq, hd⟩
+    rw [polyBdryContains_iff]
+    simp only [onPolyBdry, List.any_eq_true] at hq
+    obtain ⟨e, he, hp⟩ := hq
+    exact ⟨h0, e, he, (segDist2_le e.1 e.2 p q hp).trans hd⟩
+
 end TPV.Poly
